@@ -257,6 +257,43 @@ def rule_positional(run, F, cfg):
         run.ob("C08.2.positional", f"{dname.split('::')[-1]}:defaults-are-a-suffix", ok,
                f"{dname}: fields with #[serde(default)] (missing element tolerated) are positions {defaulted} of "
                f"{nf} — they must form a suffix, otherwise an old buffer shifts every later field", site=v.loc(0), config=cfg)
+    # every struct of the wire graph is written field by field on every path: rmp-serde encodes a struct as an
+    # array, so a field skipped on some path (`skip_serializing_if`) shifts every later field into the wrong slot
+    from analysis import serde_shape as _S
+    from . import C09 as _C09
+    seen, work, n_w = set(), [V0 + "SerializeFormat", V0 + "NetworkFilterV0SerializeFmt"], 0
+    work += [n for n in F.adts if n.endswith("NetworkFilterListV0SerializeFmt")]
+    while work:
+        ty = work.pop()
+        if ty in seen:
+            continue
+        seen.add(ty)
+        f = _C09.ser_impl(F, ty)
+        if f is None:
+            continue
+        for b, t in f.calls(r"::(serialize_field|serialize_element|serialize_newtype_struct|serialize_newtype_variant|serialize_entry|serialize_some)$"):
+            gen = t.get("gen", [])
+            T = gen[-1] if gen else ""
+            if "__SerializeWith" in T:
+                w = _C09.with_impl(F, T)
+                if w is not None:
+                    for wb, wt in w.calls():
+                        if wt.get("local"):
+                            for g in wt.get("gen", []):
+                                _C09._descend(F, g, work, run, cfg, ty)
+            else:
+                _C09._descend(F, T, work, run, cfg, ty)
+        ss = _S.ser_struct(F, ty)
+        if ss is None:
+            continue
+        run.touched(ss["fn"])
+        n_w += 1
+        cond = [k for k, b in ss["fields"] if k not in ss["unconditional"]]
+        run.ob("C08.2.positional", f"{ty.split('::')[-1]}:written-unconditionally", not ss["skips"] and not cond,
+               f"the derived Serialize of {ty} writes each of its {len(ss['fields'])} fields on every path "
+               f"(skipped on some path: {sorted(set(ss['skips']) | set(cond))}); a positional (array) encoding has no "
+               f"way to say which field is missing", site=ss["fn"].loc(0), config=cfg)
+    run.floor("C08.2.positional", f"wire structs checked for unconditional writes [{cfg}]", n_w, 3)
     run.floor("C08.2.positional", f"wire fields compared [{cfg}]",
               sum(len(F.fields(s)) for s, _ in pairs), 32)
     # inner list struct
@@ -393,6 +430,34 @@ def rule_legacy(run, F, cfg):
            "on the loops and (procedural bins) on the element having a CSS form; value-dependent skips lose "
            f"entries such as the blanket scriptlet exception `#@#+js()`, stored as the empty string ({odd[:2]})",
            site=odd[0][3] if odd else leg.loc(0), config=cfg)
+    # ... and every element is visited: the loops of both conversions run over the bins themselves, not over a
+    # filtered / truncated view of them
+    from analysis.guards import selective_adapters
+    b_inner = [g for n, g in F.fns.items() if n.startswith(back.name + "::")]
+    sel = selective_adapters(leg, back, *inner, *b_inner)
+    # a predicate adapter whose predicate is exactly "has a legacy CSS form" is the iterator spelling of the accepted
+    # control dependence of the procedural bins (see stores-unconditional)
+    def _css_form_only(g, b, t):
+        for a in t["args"]:
+            e = g.expr_operand(a)
+            for cname in re.findall(r"closure\[(.+?)\]\(", e):
+                c = F.fns.get(cname)
+                if c is not None:
+                    callees = [strip_generics(ct["callee"]) for cb, ct in c.calls()]
+                    if any(re.search(r"from_str$|as_css$|as_legacy_css$", x) for x in callees) and all(re.search(r"serde_json::from_str$|::as_css$|::as_legacy_css$|^std::result::Result::ok$|^std::option::Option::and_then$|Deref>::deref$|::as_str$|AsRef<.*>>::as_ref$", x) for x in callees):
+                        return True
+        return False
+    kept = []
+    for g in [leg, back] + inner + b_inner:
+        for b, t in g.calls(r"^std::iter::Iterator::(filter|filter_map)$"):
+            if not _css_form_only(g, b, t):
+                kept.append((strip_generics(t["callee"]), g.loc(b)))
+    sel = [x for x in sel if not re.search(r"::(filter|filter_map)$", x[0])] + kept
+    run.ob("C08.3.legacy-bijection", "visits-every-element", not sel,
+           "neither conversion between HostnameRuleDb and the legacy map iterates through an adapter that can drop or "
+           f"truncate elements (filter, take_while, skip, ...): {sel[:3]}", site=sel[0][1] if sel else leg.loc(0), config=cfg,
+           detail="an element-level filter on the way to the wire loses rules; the empty string in particular is the "
+                  "blanket scriptlet exception `#@#+js()`")
     # load side: every entry of the legacy map is put back into a bin: an insert is control-dependent only on
     # the two loops and on the variant of the entry (never on its content)
     odd_r = []
